@@ -1,5 +1,5 @@
 #!/usr/bin/env python3
-"""tools/benigntest.py <round-prefix e.g. /tmp/seed7> [props...]
+"""tools/benigntest.py <round-prefix e.g. /tmp/seed7 | stored> [props...]
 Runs the checks against changes that are meant to KEEP a property true (refactorings, correct
 optimisations, behaviour the property does not speak about): the quick check of the property the
 change was written for, and of every other property whose anchor files the patch touches, in a
@@ -9,7 +9,7 @@ import json, os, re, subprocess, sys, glob
 env = dict(os.environ, GOFLAGS="-mod=mod", GOPROXY="off", GOSUMDB="off", GOTOOLCHAIN="local")
 def sh(cmd, **kw):
     return subprocess.run(cmd, shell=True, capture_output=True, text=True, env=env, **kw)
-prefix = sys.argv[1]
+prefix = sys.argv[1]  # a round prefix such as /tmp/seed7, or "stored" for the changes kept under /verif/benign
 props = sys.argv[2:] or [f"C{i:02d}" for i in range(1, 21)]
 anchors = {}
 for l in open("/verif/properties.jsonl"):
@@ -19,8 +19,9 @@ WT = f"/tmp/benign-{os.getpid()}"
 sh(f"git -C /repo worktree add -q --detach {WT} HEAD")
 for pid in props:
     out = f"{prefix}-{pid.lower()}-out"
-    for pf in sorted(glob.glob(f"{out}/patch*.diff")):
-        k = re.search(r"patch(\d+)\.diff", pf).group(1)
+    pfs = sorted(glob.glob(f"{out}/patch*.diff")) if prefix != "stored" else sorted(glob.glob(f"/verif/benign/{pid}-b*/patch.diff"))
+    for pf in pfs:
+        k = re.search(r"patch(\d+)\.diff", pf).group(1) if prefix != "stored" else re.search(r"-b(\d+)/", pf).group(1)
         sh(f"git -C {WT} checkout -q -- . && git -C {WT} clean -fdq")
         r = sh(f"git -C {WT} apply {pf}")
         if r.returncode:
